@@ -97,6 +97,7 @@ type fnExec struct {
 	inEdges        map[*ssa.BasicBlock][]edge
 	exits          []exitRec
 	inlining       int
+	asyncMods      *modSet
 	inlinedHelpers map[string]bool
 	oblCount       map[string]int
 	sharedMut      map[ssa.Value]bool
@@ -1258,6 +1259,7 @@ func (fx *fnExec) run() (err error) {
 	fx.obls = append(fx.obls, &Obligation{Name: fx.name + "/vacuity:requires", Kind: "vacuity", Func: fx.name, Mode: fx.mode,
 		Prefix: len(fx.assumps), NDecl: -1, Goal: tFalse, Expect: "reach", fx: fx})
 
+	fx.collectAsyncMods()
 	fx.checkFrame()
 	order := fx.blockOrder()
 	fx.inEdges = map[*ssa.BasicBlock][]edge{}
